@@ -24,7 +24,7 @@
 (* types and compares (numbers parsed back, exact rational arithmetic).    *)
 (* TLC integers are 32-bit, so sizes are kept symbolic (B, e, m, d).       *)
 (***************************************************************************)
-EXTENDS Integers, Sequences, FiniteSets, TLC, Json
+EXTENDS Integers, Sequences, FiniteSets, TLC, Json, Norm
 
 CONSTANTS SampleN, SampleDur, MaxSamples, MedianVals, MaxMedianOps,
           NormRem, NormDt, NormPars, MaxNormCalls    \* raw estimates (s), time between calls (s), parameters, calls per case
@@ -78,23 +78,19 @@ MedianOp ==
      ELSE win' = <<win[2], win[3], c.ops[i]>> /\ UNCHANGED outs
   /\ i' = i + 1 /\ UNCHANGED <<kind, c, zDur, adds, received, accounted, nz>>
 
-(* decor/eta.go, FixedIntervalTimeNormalizer and MaxTolerateTimeNormalizer: one Normalize(rem) call, dt after the call before.
+(* decor/eta.go, FixedIntervalTimeNormalizer and MaxTolerateTimeNormalizer: one Normalize(rem) call, dt after the call before
+   (Norm.tla; NormInd.tla has the same operators for every integer, by Apalache).
    count / val are the closures' variables; base, since, run and resets are history (the raw value last shown, the time
    since then, the calls since then, and which calls showed the raw value) *)
 NormCall ==
   /\ kind = "norm" /\ i <= Len(c.calls)
   /\ LET rem  == c.calls[i].rem
          dt   == c.calls[i].dt
-         look == IF c.which = "fixed" THEN nz.count = 0 \/ rem < 60
-                 ELSE (nz.val - rem <= 0) \/ (nz.val - rem > c.par) \/ rem < 60
-         down == nz.val - dt
-     IN IF look
-        THEN /\ nz' = [count |-> IF c.which = "fixed" THEN c.par ELSE 0, val |-> rem, base |-> rem, since |-> 0, run |-> 0,
-                       resets |-> Append(nz.resets, TRUE)]
-             /\ outs' = Append(outs, rem)
-        ELSE /\ nz' = [count |-> IF c.which = "fixed" THEN nz.count - 1 ELSE 0, val |-> down, base |-> nz.base,
-                       since |-> nz.since + dt, run |-> nz.run + 1, resets |-> Append(nz.resets, FALSE)]
-             /\ outs' = Append(outs, IF down > 0 THEN down ELSE rem)
+         look == NormLook(c.which, c.par, nz.count, nz.val, rem)      \* the operators of Norm.tla
+     IN /\ outs' = Append(outs, NormOut(c.which, c.par, nz.count, nz.val, rem, dt))
+        /\ nz' = [count |-> NormCount(c.which, c.par, nz.count, nz.val, rem), val |-> NormVal(c.which, c.par, nz.count, nz.val, rem, dt),
+                  base |-> IF look THEN rem ELSE nz.base, since |-> IF look THEN 0 ELSE nz.since + dt,
+                  run |-> IF look THEN 0 ELSE nz.run + 1, resets |-> Append(nz.resets, look)]
   /\ i' = i + 1 /\ UNCHANGED <<kind, c, zDur, adds, received, accounted, win>>
 
 (* github.com/VividCortex/ewma SimpleEWMA (what the decorators use for age 0, "the default"): value * 31^(k-1) after
